@@ -16,9 +16,16 @@
 //   main  (exec%4 != 3) non-empty ranges with offset < 2^64-1: nested / partially overlapping / adjacent /
 //         saturating; lock, try_lock_wait+unlock(offset,length) (exact or a superset that only partially
 //         covers the neighbours), try_lock_wait2, adjust_range, ScopedRangeLock.
-//   edge  (exec%4 == 3) additionally zero-length ranges and ranges at offset 2^64-1. Phase A uses only the
-//         handle API concurrently; phase B (last, because the known defect wedges it) releases a
-//         zero-length range with unlock(offset,0) and then locks a covering range.
+//   edge  (exec%4 == 3) degenerate ranges, arranged so that the three defects known in this area cannot
+//         wedge or corrupt the rest of the execution:
+//         phase A (concurrent, handle API only): the main mix plus zero-length ranges, where every worker
+//           uses its own private point (two zero-length ranges at ONE offset corrupt the std::set, see S2)
+//           and only worker 0 uses offset 2^64-1;
+//         phase B (scripted, each scenario on a fresh RangeLock that is abandoned afterwards):
+//           S1 a range at offset 2^64-1 against a holder of the top bytes (value API);
+//           S2 two zero-length locks at one offset, then a second lock of a held non-empty range;
+//           S3 try_lock_wait(x,0); unlock(x,0); lock(covering range).
+//           S2 and S3 end the execution on the unchanged tree, so they alternate over the edge executions.
 // Oracles: occupancy overlap (violation), plain payload per cell (sanitizers + overwritten check),
 // supervisor: a thread blocked in lock()/try_lock_wait*() while no recorded holder overlaps its range,
 // whole-space lock at quiescence.
@@ -66,7 +73,8 @@ static RangeLock* g_lock;
 static std::atomic<uint32_t> g_cell[NCELL];     // occupancy map: owner id + 1
 static std::atomic<int> g_zpoint[NPT];          // zero-length holders per grid point
 static uint64_t g_payload[NCELL];               // plain memory protected by the range lock
-static std::atomic<int> g_phase{0};             // 0 workers, 1 quiescence, 2 edge phase B
+static std::atomic<int> g_phase{0};             // 0 workers, 1 quiescence, 2 edge S1/S2, 3 edge S3
+static std::atomic<const char*> g_tag{nullptr}; // scenario tag appended to overlap keys
 
 struct Worker {
     int id = 0;
@@ -74,9 +82,9 @@ struct Worker {
     std::atomic<int> blk_a{0}, blk_b{0};
     std::atomic<int> held_a{-1}, held_b{-1};    // for witnesses only
     std::atomic<const char*> how{""};
+    int zp = -1;                                // edge section: the private zero-length point of this worker
 };
 static Worker g_w[MAXW];
-static std::atomic<int> g_nworkers{0};
 static std::vector<int> g_pts;                  // the grid points used by this execution
 static bool g_edge = false;
 static uint64_t g_ops = 0;
@@ -91,14 +99,15 @@ static void mark_cells(Worker& w, int a, int b, const char* how) {
     std::vector<int> clash;
     uint32_t other = 0;
     for (int c = a; c < b && c < NCELL; ++c) {
-        uint32_t prev = g_cell[c].exchange(w.id + 1, vh::MO);
-        if (prev != 0 && prev != (uint32_t)w.id + 1) { clash.push_back(c); other = prev; }
+        uint32_t prev = 0;
+        if (!g_cell[c].compare_exchange_strong(prev, w.id + 1, vh::MO)) { clash.push_back(c); other = prev; }   // stays the other's cell
         else g_payload[c] = w.id + 1;
     }
     if (!clash.empty()) {
         bool only_top = clash.size() == 1 && clash[0] == TOPCELL;
         auto& o = g_w[other - 1];
-        vh::violation(only_top ? "overlap/top-byte" : "overlap/two-holders",
+        auto tag = g_tag.load(vh::MO);
+        vh::violation(only_top ? "overlap/top-byte" : tag ? std::string("overlap/two-holders:") + tag : "overlap/two-holders",
                       only_top ? "two threads hold ranges that both contain byte 2^64-1 (the saturating end cannot represent it)"
                                : "two threads hold overlapping non-empty ranges at the same time",
                       vh::JObj().kv("how", how).kv("worker", w.id).kv("cells_from", a).kv("cells_to", b)
@@ -109,7 +118,7 @@ static void mark_cells(Worker& w, int a, int b, const char* how) {
 static void unmark_cells(Worker& w, int a, int b) {
     for (int c = a; c < b && c < NCELL; ++c) {
         uint32_t me = w.id + 1;
-        if (g_cell[c].load(vh::MO) != me) continue;          // an overlap was already reported for this cell
+        if (g_cell[c].load(vh::MO) != me) continue;          // an overlap was reported for this cell, it is the other holder's
         if (g_payload[c] != me)
             vh::violation("exclusion/payload-overwritten", "plain memory covered by a held range was overwritten by another thread",
                           vh::JObj().kv("cell", c).kv("worker", w.id).kv("found", g_payload[c]).str());
@@ -135,21 +144,19 @@ static void hold(vh::Rng& r) {
     }
 }
 
-static Spec pick_spec(vh::Rng& r) {
+static Spec pick_spec(vh::Rng& r, Worker& w) {
     int n = g_pts.size();
+    if (g_edge && w.zp >= 0 && r.chance(1, 4)) {
+        // degenerate range at the private point of this worker (worker 0: offset 2^64-1, empty or "1 byte")
+        if (w.zp == 129 && r.chance(1, 2)) return make_spec(r, 129, 130);
+        return make_spec(r, w.zp, w.zp);
+    }
     for (;;) {
         int i = r.below(n), j = r.below(n);
         if (i > j) std::swap(i, j);
         int a = g_pts[i], b = g_pts[j];
-        if (!g_edge) {
-            if (a == b || a > 128) continue;
-        } else {
-            if (a > 129) continue;
-            if (a == b && !r.chance(1, 3)) continue;         // zero-length, not too many
-        }
+        if (a == b || a > 128) continue;
         if (b == 130 && a == 0) b = 129;                     // offset 0 cannot pass 2^64
-        if (b == 130 && a == 130) continue;
-        if (a == b && a == 130) continue;
         return make_spec(r, a, b);
     }
 }
@@ -170,7 +177,7 @@ static void note_acquired(const Spec& s) {
 static void do_adjust(vh::Rng& r, Worker& w, RangeLock::LockHandle* h, Spec& cur) {
     Spec nw;
     for (;;) {
-        nw = pick_spec(r);
+        nw = pick_spec(r, w);
         // bias towards ranges related to the current one
         if (r.chance(2, 3) && (nw.b < cur.a || nw.a > cur.b)) continue;
         break;
@@ -218,7 +225,7 @@ static void set_blocked(Worker& w, const Spec& s, const char* how) {
 static void clear_blocked(Worker& w) { w.blocked.store(0, std::memory_order_release); }
 
 static void one_op(vh::Rng& r, Worker& w, bool handle_only) {
-    Spec s = pick_spec(r);
+    Spec s = pick_spec(r, w);
     int how = r.below(handle_only ? 3 : 4);      // 0 lock, 1 try_lock_wait2 loop, 2 scoped, 3 try_lock_wait + unlock(off,len)
     vh::event();
     if (how == 0) {
@@ -320,7 +327,7 @@ static bool ledger_conflict(int a, int b) {
 static bool on_stuck(std::string& key, std::string& what, std::string& wit) {
     vh::JArr arr;
     bool proved = false;
-    for (int i = 0, n = g_nworkers.load(); i < n; ++i) {
+    for (int i = 0; i < MAXW; ++i) {
         auto& w = g_w[i];
         if (!w.blocked.load(std::memory_order_acquire)) continue;
         int a = w.blk_a.load(), b = w.blk_b.load();
@@ -330,7 +337,7 @@ static bool on_stuck(std::string& key, std::string& what, std::string& wit) {
         if (!conflict) {
             proved = true;
             int ph = g_phase.load();
-            if (ph == 2) {
+            if (ph == 3) {
                 key = "stuck/zero-length-range-survives-unlock(offset,0)";
                 what = "a zero-length range taken with try_lock_wait(x,0) is not released by unlock(x,0): a later lock of a covering "
                        "range blocks forever although nothing is held";
@@ -348,27 +355,121 @@ static bool on_stuck(std::string& key, std::string& what, std::string& wit) {
     return proved;
 }
 
+// ---- edge section, phase B: scripted scenarios, each on a fresh RangeLock (abandoned afterwards)
+static Worker& W1 = g_w[MAXW - 3];
+static Worker& W2 = g_w[MAXW - 2];
+static Worker& W3 = g_w[MAXW - 1];
+
+// a helper thread makes one attempt; the caller keeps its own range until the attempt returned or, if the
+// implementation sees the conflict and parks the helper, for a while (the caller's unlock then wakes it).
+template <typename F>
+static join_handle* attempt_async(std::atomic<bool>& done, F f) {
+    return thread_enable_join(thread_create11([&done, f] { f(); done.store(true); }));
+}
+static void wait_attempt(std::atomic<bool>& done) {
+    // under a sanitizer the helper may be busy printing a report about the corrupted index (it then ends the
+    // process itself): keep the supervisor quiet meanwhile instead of touching the index from here
+    int rounds = (vh::is_asan() || vh::is_tsan()) ? 200 : 10;
+    for (int k = 0; k < rounds && !done.load(); ++k) { thread_usleep(100 * 1000); vh::progress(); }
+}
+
+// S1: byte 2^64-1. A holds [2^64-17, 2^64) (length passing 2^64), B asks for (2^64-1, n).
+static void scenario_top_byte(vh::Rng& rb) {
+    g_lock = new RangeLock;
+    Spec t1 = make_spec(rb, 129, 130), t2 = make_spec(rb, 128, 130);
+    uint64_t o = t2.off, l = t2.len;
+    vh::event();
+    if (g_lock->try_lock_wait(o, l) != 0) return;
+    mark(W1, t2, "try_lock_wait");
+    std::atomic<bool> done{false};
+    auto th = attempt_async(done, [&] {
+        uint64_t oo = t1.off, ll = t1.len;
+        set_blocked(W2, t1, "try_lock_wait(2^64-1,n)");
+        int ret = g_lock->try_lock_wait(oo, ll);
+        clear_blocked(W2);
+        if (ret == 0) { c_top.add(); mark(W2, t1, "try_lock_wait"); unmark(W2, t1); g_lock->unlock(t1.off, t1.len); }
+    });
+    wait_attempt(done);
+    unmark(W1, t2);
+    g_lock->unlock(t2.off, t2.len);
+    thread_join(th);
+    vh::progress();
+}
+
+// S2: lock(p,0); lock([p-1,p)); lock(p,0) again; then a second lock of [p-1,p) while it is held.
+static void scenario_duplicate_zero_length(vh::Rng& rb) {
+    g_lock = new RangeLock;
+    int p = rb.range(8, 60);
+    Spec z = make_spec(rb, p, p), a = make_spec(rb, p - 1, p);
+    vh::event();
+    auto h1 = g_lock->lock(z.off, 0); mark(W1, z, "lock(x,0)"); c_zero.add();
+    auto h2 = g_lock->lock(a.off, a.len); mark(W1, a, "lock");
+    auto h3 = g_lock->lock(z.off, 0); mark(W2, z, "lock(x,0)"); c_zero.add();
+    g_tag.store("after-two-zero-length-locks-at-one-offset");
+    std::atomic<bool> done{false}, got{false};
+    auto th = attempt_async(done, [&] {
+        set_blocked(W3, a, "try_lock_wait2");
+        auto h = g_lock->try_lock_wait2(a.off, a.len);
+        clear_blocked(W3);
+        if (h) { got.store(true); mark(W3, a, "try_lock_wait2"); unmark(W3, a); }     // the index is corrupt: never touch it again
+    });
+    wait_attempt(done);
+    if (!got.load()) {
+        unmark(W1, a); g_lock->unlock(h2);          // wakes the helper if it was parked
+        thread_join(th);
+        unmark(W2, z); g_lock->unlock(h3);
+        unmark(W1, z); g_lock->unlock(h1);
+    } else {
+        thread_join(th);
+        unmark(W1, a); unmark(W2, z); unmark(W1, z);
+    }
+    g_tag.store(nullptr);
+    vh::progress();
+}
+
+// S3: zero-length range through the value API, then a covering lock. Known to block forever.
+static void scenario_zero_length_value_api(vh::Rng& rb) {
+    g_lock = new RangeLock;
+    int p = rb.range(1, 128);
+    Spec z = make_spec(rb, p, p);
+    uint64_t o = z.off, l = 0;
+    vh::event();
+    if (g_lock->try_lock_wait(o, l) != 0) return;
+    c_zero.add();
+    mark(W1, z, "try_lock_wait(x,0)");
+    thread_yield();
+    unmark(W1, z);
+    g_lock->unlock(z.off, 0);
+    vh::progress();
+    Spec cover = make_spec(rb, p - 1, p + 1);
+    set_blocked(W1, cover, "lock(covering range) after unlock(x,0)");
+    auto h = g_lock->lock(cover.off, cover.len);
+    clear_blocked(W1);
+    mark(W1, cover, "lock");
+    unmark(W1, cover);
+    g_lock->unlock(h);
+    vh::progress();
+}
+
 int main(int argc, char** argv) {
     vh::init(argc, argv);
     vh::Rng r(vh::args().xseed());
     g_edge = vh::args().has("section") ? vh::args().gets("section", "") == "edge" : (vh::args().exec % 4 == 3);
     int nv = vh::args().geti("vcpus", r.pick({1, 2, 2, 3, 4}));
     int tpv = vh::args().geti("threads", r.range(2, 6));
-    g_nworkers.store(nv * tpv);
-    const int nworkers0 = nv * tpv;
+    if (g_edge && nv * tpv > 12) tpv = 12 / nv;
+    const int nworkers = nv * tpv;
     g_superset = vh::args().geti("superset_unlock", 1) != 0;
-    g_ops = vh::args().geti("ops", vh::args().thorough() ? 12000 : 3000);
-    if (g_edge) g_ops /= 2;
+    g_ops = vh::args().geti("ops", vh::args().thorough() ? 4000 : 600);
     if (vh::is_tsan()) g_ops /= 4;
     g_ops /= vh::args().shape_div();
     if (g_ops < 50) g_ops = 50;
     // the grid points of this execution: few points => many conflicts; always some structure at the top
     int npts = r.pick({4, 5, 6, 8, 10, 14});
-    std::vector<int> cand;
+    int base = r.below(50);
     {
         std::unordered_set<int> used;
         auto add = [&](int p) { if (used.insert(p).second) g_pts.push_back(p); };
-        int base = r.below(50);
         // a cluster of low points, the two sides of the middle cell, a cluster at the top
         int nlow = std::max(2, npts / 2);
         for (int i = 0; i < nlow; ++i) add(base + r.below(8));
@@ -382,6 +483,15 @@ int main(int argc, char** argv) {
     std::string ptdesc;
     for (auto p : g_pts) ptdesc += std::to_string(p) + ",";
     for (int i = 0; i < MAXW; ++i) g_w[i].id = i;
+    if (g_edge) {
+        // private zero-length points: distinct per worker, inside the busy regions; worker 0 owns offset 2^64-1
+        std::vector<int> pool;
+        for (int p = base; p <= base + 8; ++p) pool.push_back(p);
+        pool.push_back(64); pool.push_back(65);
+        for (int p = 120; p <= 128; ++p) pool.push_back(p);
+        for (size_t i = pool.size(); i > 1; --i) std::swap(pool[i - 1], pool[r.below(i)]);
+        for (int i = 0; i < nworkers; ++i) g_w[i].zp = i == 0 ? 129 : pool[i];
+    }
     vh::config("section", g_edge ? "edge" : "main");
     vh::config("vcpus", nv); vh::config("threads_per_vcpu", tpv); vh::config("points", ptdesc);
     vh::config("ops_per_thread", g_ops);
@@ -394,88 +504,44 @@ int main(int argc, char** argv) {
     std::atomic<int> done_vcpus{0};
     vc.run(nv, nullptr, [&](int v) {
         std::vector<join_handle*> jh;
-        for (int i = v; i < nworkers0; i += nv)
+        for (int i = v; i < nworkers; i += nv)
             jh.push_back(thread_enable_join(thread_create(worker_main, &g_w[i], 256 * 1024)));
         for (auto h : jh) thread_join(h);
         done_vcpus.fetch_add(1, std::memory_order_acq_rel);
         if (v != 0) return;
         while (done_vcpus.load(std::memory_order_acquire) < nv) thread_usleep(200);
         // quiescence: nothing is held any more, the whole space can be locked
-        auto& w = g_w[g_nworkers.fetch_add(1)];
         g_phase.store(1);
         for (int c = 0; c < NCELL; ++c)
             if (g_cell[c].load() != 0 && vh::n_violations() == 0) vh::machinery_failure("occupancy map not empty at quiescence");
         {
             Spec whole; whole.a = 0; whole.b = 129; whole.off = 0; whole.len = UINT64_MAX;
-            set_blocked(w, whole, "lock(whole space)");
+            set_blocked(W1, whole, "lock(whole space)");
             auto h = g_lock->lock(0, UINT64_MAX);
-            clear_blocked(w);
+            clear_blocked(W1);
             c_whole.add();
-            mark(w, whole, "lock(whole space)");
-            unmark(w, whole);
+            mark(W1, whole, "lock(whole space)");
+            unmark(W1, whole);
             g_lock->unlock(h);
             vh::progress();
         }
         if (g_edge) {
-            // phase B, value API on degenerate ranges. B0: a range at offset 2^64-1 against a holder of the top bytes
-            g_phase.store(2);
             vh::Rng rb(vh::mix(vh::args().xseed(), 77));
-            {
-                Spec t1 = make_spec(rb, 129, 130), t2 = make_spec(rb, 128, 130);
-                Worker& w2 = g_w[g_nworkers.load()]; w2.id = g_nworkers.load(); g_nworkers.fetch_add(1);
-                uint64_t o = t2.off, l = t2.len;
-                vh::event();
-                if (g_lock->try_lock_wait(o, l) == 0) {
-                    mark(w, t2, "try_lock_wait");
-                    std::atomic<bool> attempt_done{false};
-                    auto th = thread_enable_join(thread_create11([&] {
-                        uint64_t oo = t1.off, ll = t1.len;
-                        set_blocked(w2, t1, "try_lock_wait(2^64-1,n)");
-                        int ret = g_lock->try_lock_wait(oo, ll);
-                        clear_blocked(w2);
-                        if (ret == 0) { c_top.add(); mark(w2, t1, "try_lock_wait"); unmark(w2, t1); g_lock->unlock(t1.off, t1.len); }
-                        attempt_done.store(true);
-                    }));
-                    // keep the range until the second thread has made its attempt (or, should the implementation
-                    // see the conflict, has had ample time to park; the unlock below then wakes it)
-                    for (int k = 0; k < 1000 && !attempt_done.load(); ++k) thread_usleep(100);
-                    unmark(w, t2);
-                    g_lock->unlock(t2.off, t2.len);
-                    thread_join(th);
-                }
-                vh::progress();
-            }
-            // B1: zero-length range through try_lock_wait / unlock(offset,0); then a covering lock
-            {
-                int p = g_pts[rb.below(g_pts.size())];
-                if (p < 1) p = 1;
-                if (p > 128) p = 128;
-                Spec z = make_spec(rb, p, p);
-                uint64_t o = z.off, l = 0;
-                vh::event();
-                int ret = g_lock->try_lock_wait(o, l);
-                if (ret == 0) {
-                    c_zero.add();
-                    mark(w, z, "try_lock_wait(x,0)");
-                    thread_yield();
-                    unmark(w, z);
-                    g_lock->unlock(z.off, 0);
-                    vh::progress();
-                    Spec cover = make_spec(rb, p - 1, p + 1);
-                    set_blocked(w, cover, "lock(covering range) after unlock(x,0)");
-                    auto h = g_lock->lock(cover.off, cover.len);
-                    clear_blocked(w);
-                    mark(w, cover, "lock");
-                    unmark(w, cover);
-                    g_lock->unlock(h);
-                    vh::progress();
-                }
-            }
+            // S2 and S3 both end the execution on the unchanged tree (sanitizer report / proven stuck state):
+            // they alternate over the edge executions
+            bool s3 = vh::args().has("scenario") ? vh::args().gets("scenario", "") == "S3" : ((vh::args().exec / 4) % 2 == 0);
+            // (the driver's TSan keys carry no frames: S2's TSan report would need a blanket known key, so S2 runs in asan/plain only)
+            if (vh::is_tsan() && !vh::args().has("scenario")) s3 = true;
+            vh::config("last_scenario", s3 ? "S3" : "S2");
+            g_phase.store(2);
+            scenario_top_byte(rb);
+            if (!s3) scenario_duplicate_zero_length(rb);
+            else { g_phase.store(3); scenario_zero_length_value_api(rb); }
         }
     });
 
     uint64_t waited = vh::cov(C_RANGELOCK_WAITED);
-    bool nontrivial = waited > 0 && c_adj_ok.get() + c_adj_refused.get() > 0 && nworkers0 >= 2;
+    bool nontrivial = waited > 0 && c_adj_ok.get() + c_adj_refused.get() > 0 && nworkers >= 2;
     vh::set_sig(std::string(g_edge ? "edge" : "main") + "|v" + std::to_string(nv) + "|t" + std::to_string(tpv) + "|p" +
                     std::to_string(g_pts.size()) + "|" + vh::cov_signature({C_RANGELOCK_WAITED, C_CROSS_VCPU_WAKE}) +
                     "ref:" + std::to_string(vh::log2bucket(c_adj_refused.get())) + ",grow:" + std::to_string(vh::log2bucket(c_adj_grow.get())) +
